@@ -178,7 +178,20 @@ def run_case(w, prog, db, dbname, dialect, src=None, want_rq=True, user_names=No
             o.status = "unalignable"
             aligned = False
     elif len(act) != len(exp):
-        o.symptoms.append(("C05", "column_count", "frame %r result %r" % (exp, act)))
+        sym = "column_count"
+        if has_wild and len(act) > len(exp) and all(n is not None for n in exp):
+            # finer class for wildcard frames: every frame column is there, in order, and what is extra is a
+            # compiler-generated name or a repeated frame column (a carried sort key / helper): KF-C05-2's defect.
+            # Anything else (a frame column missing or out of order) stays `column_count`
+            it = iter(act)
+            in_order = all(any(a == n for a in it) for n in exp)
+            extras = list(act)
+            for n in exp:
+                if n in extras:
+                    extras.remove(n)
+            if in_order and all((GENERATED.match(x) and x not in user) or x in exp for x in extras):
+                sym = "helper_columns_leak"
+        o.symptoms.append(("C05", sym, "frame %r result %r" % (exp, act)))
         aligned = False
         if len(act) > len(exp) and exp and all(n is not None for n in exp) and act[:len(exp)] == exp and not m.colorder_unspec:
             # the frame's columns come first and helper columns trail (the listed wildcard defect KF-C05-2):
